@@ -280,21 +280,16 @@ def run_cases(binary, cases, timeout=900):
     return res
 
 
-def coq_crosscheck(cases, expected, tag):
-    """Evaluate run_case on a sample inside coqc (vm_compute) and compare with the driver's output."""
-    if not cases:
-        return 0, []
+def _xcheck_shard(cases, expected, tag, k):
     d = os.path.join(CACHE, "xcheck")
     os.makedirs(d, exist_ok=True)
-    path = os.path.join(d, "x_%s_%d.v" % (tag, os.getpid()))
-
-    def lit(s):
-        return "[" + ";".join(str(b) for b in s.encode("ascii")) + "]"
+    path = os.path.join(d, "x_%s_%d_%d.v" % (tag, os.getpid(), k))
     with open(path, "w") as f:
-        f.write("Require Import CF.Model.Base CF.Model.Harness.\n")
-        f.write("Definition ok (c e : list N) : bool := bytes_eqb (run_case c) e.\n")
-        f.write("Definition cases : list (list N * list N) := [\n")
-        f.write(";\n".join("(%s, %s)" % (lit(c), lit(e)) for c, e in zip(cases, expected)))
+        f.write("Require Import Coq.Strings.String Coq.Strings.Ascii.\nRequire Import CF.Model.Base CF.Model.Harness.\n")
+        f.write("Definition b (s : string) : list N := map N_of_ascii (list_ascii_of_string s).\n")
+        f.write("Definition ok (c e : string) : bool := bytes_eqb (run_case (b c)) (b e).\n")
+        f.write("Definition cases : list (string * string) := [\n")
+        f.write(";\n".join('("%s", "%s")%%string' % (c, e) for c, e in zip(cases, expected)))
         f.write("].\n")
         f.write("Eval vm_compute in map (fun ce => ok (fst ce) (snd ce)) cases.\n")
     rc, out = run(["timeout", "600", "coqc", "-q", "-Q", COQ, "CF", path], cwd=d, timeout=700)
@@ -306,12 +301,35 @@ def coq_crosscheck(cases, expected, tag):
     if os.path.exists(aux):
         os.remove(aux)
     if rc != 0:
-        return 0, ["coqc failed: " + out[-2000:]]
+        return ["coqc failed: " + out[-2000:]]
     vals = re.findall(r"\b(true|false)\b", out.split("=", 1)[1] if "=" in out else out)
     bad = [cases[i] for i, v in enumerate(vals[:len(cases)]) if v != "true"]
     if len(vals) < len(cases):
         bad.append("short output from coqc")
-    return len(cases), bad
+    return bad
+
+
+def coq_crosscheck(cases, expected, tag, budget=40000):
+    """Evaluate run_case on a sample inside coqc (vm_compute) and compare with the driver's output.
+    The sample is cut to a total size budget and sharded over parallel coqc processes."""
+    sel_c, sel_e, tot = [], [], 0
+    for c, e in zip(cases, expected):
+        if '"' in c or '"' in e:
+            continue
+        if tot + len(c) + len(e) > budget and sel_c:
+            continue
+        sel_c.append(c)
+        sel_e.append(e)
+        tot += len(c) + len(e)
+    if not sel_c:
+        return 0, []
+    n = min(8, max(1, len(sel_c) // 10))
+    with cf.ThreadPoolExecutor(max_workers=n) as ex:
+        futs = [ex.submit(_xcheck_shard, sel_c[k::n], sel_e[k::n], tag, k) for k in range(n)]
+        bad = []
+        for f in futs:
+            bad += f.result()
+    return len(sel_c), bad
 
 
 # ------------------------------------------------------------------------------------------------
